@@ -15,12 +15,12 @@ run_demo > $OUT/confirm$K.clean.log 2>&1; CLEAN=$?
 git -C $WT apply $PATCH || { echo "patch does not apply"; git -C /repo worktree remove --force $WT; exit 2; }
 run_demo > $OUT/confirm$K.patched.log 2>&1; PATCHED=$?
 if [ -z "$SKIP_TESTS" ]; then
-(cd $WT && /venv/bin/python -m pytest -q -p no:cacheprovider --timeout=900 --continue-on-collection-errors -x --deselect compiler/front_end/cached_parser_is_up_to_date_test.py 2>&1 | grep -v conda | tail -8) > $OUT/confirm$K.tests.log 2>&1
+(cd $WT && /venv/bin/python -m pytest -q -p no:cacheprovider --timeout=900 --continue-on-collection-errors 2>&1 | grep -v conda | tail -8) > $OUT/confirm$K.tests.log 2>&1
 TESTS=$(grep -E "passed|failed" $OUT/confirm$K.tests.log | tail -1)
 else TESTS="skipped"; fi
 RES=""
 for C in $CHECKS; do
-  EMBOSS_REPO=$WT VERIF_SEED=${VERIF_SEED:-1} /verif/check $C --tier quick > $OUT/confirm$K.check_$C.log 2>&1; RC=$?
+  VERIF_REPLAY_DIR=$OUT/replays VERIF_EVIDENCE_DIR=$OUT/evidence EMBOSS_REPO=$WT VERIF_SEED=${VERIF_SEED:-1} /verif/check $C --tier quick > $OUT/confirm$K.check_$C.log 2>&1; RC=$?
   RES="$RES $C:rc=$RC"
 done
 echo "{\"id\":\"$ID\",\"k\":$K,\"demo_clean_rc\":$CLEAN,\"demo_patched_rc\":$PATCHED,\"tests\":\"$TESTS\",\"checks\":\"$RES\"}" | tee $OUT/confirm$K.json
